@@ -4,7 +4,7 @@
    off the classes the value objects carry (Michelson/Instr.v [pval]). [typecheck] gives the static stack type.
 
    FULL STATEMENT (the property): forall fuel env code st st' inputs stf,
-       typecheck code st = Some (Typed st') -> stack_typed inputs st -> py_eval fuel env code (mkst [] inputs) = PDone stf ->
+       typecheck code st = Some (Typed st') -> stack_typed inputs st -> py_eval env fuel code (mkst [] inputs) = PDone stf ->
        Forall2 (fun v t => rt_type v = t) (view stf) st'          (and hence the storage returned by run_code).
    PROVED below ([_partial]): the statement for the fragment of Michelson/Instr.v ([in_fragment], see C01.v) and for
    programs accepted by [typecheck_nr] (every MAP body returns the element type it received).
@@ -16,26 +16,26 @@ From PV Require Import Proofs.Instr_proofs Proofs.PyStack_proofs Proofs.PySem_pr
 Import ListNotations.
 
 (* every result slot has the static type, whatever the hidden prefix; the prefix itself is untouched *)
-Theorem C02_preservation_partial : forall fuel code st st' hid inputs stf,
+Theorem C02_preservation_partial : forall e, env_okb e = true -> forall fuel code st st' hid inputs stf,
   in_fragment code -> typecheck_nr code st = Some (Typed st') -> stack_typed inputs st ->
-  py_eval fuel code (mkst hid inputs) = PDone stf ->
+  py_eval e fuel code (mkst hid inputs) = PDone stf ->
   Forall2 (fun v t => rt_type v = t) (view stf) st'.
 Proof. exact c02_preservation. Qed.
 Print Assumptions C02_preservation_partial.
 
 (* ... in the strong form: classes are right at every depth (inside pairs, options, unions, list elements) and naturals
    are non-negative *)
-Theorem C02_deep_preservation_partial : forall fuel code st R hid inputs stf,
+Theorem C02_deep_preservation_partial : forall e, env_okb e = true -> forall fuel code st R hid inputs stf,
   in_fragment code -> typecheck_nr code st = Some R -> stack_typed inputs st ->
-  py_eval fuel code (mkst hid inputs) = PDone stf ->
+  py_eval e fuel code (mkst hid inputs) = PDone stf ->
   hidden stf = hid /\ prot stf = length hid /\ exists st', R = Typed st' /\ stack_typed (view stf) st'.
 Proof. exact c01_frame. Qed.
 Print Assumptions C02_deep_preservation_partial.
 
 (* a program whose static type is "always fails" never returns *)
-Theorem C02_failing_never_returns_partial : forall fuel code st hid inputs stf,
+Theorem C02_failing_never_returns_partial : forall e, env_okb e = true -> forall fuel code st hid inputs stf,
   in_fragment code -> typecheck_nr code st = Some Failing -> stack_typed inputs st ->
-  py_eval fuel code (mkst hid inputs) <> PDone stf.
+  py_eval e fuel code (mkst hid inputs) <> PDone stf.
 Proof. exact c01_failing_never_returns. Qed.
 Print Assumptions C02_failing_never_returns_partial.
 
@@ -51,10 +51,10 @@ Proof. exact py_of_data_typed. Qed.
 Print Assumptions C02_push_literal.
 
 (* per-instruction preservation: every instruction without sub-programs returns values of the static types *)
-Theorem C02_instr_keeps_types : forall i k fn s s1 vis,
-  py_simple i = Some (k, fn) -> tc_simple i s = Some s1 -> styped vis s ->
+Theorem C02_instr_keeps_types : forall e, env_okb e = true -> forall i k fn s s1 vis,
+  py_simple e i = Some (k, fn) -> tc_simple i s = Some s1 -> styped vis s ->
   exists args rest, vis = args ++ rest /\ length args = k /\
-    match ref_simple i (map erase vis) with
+    match ref_simple e i (map erase vis) with
     | Done r => exists outs, fn args = POk outs /\ map erase (outs ++ rest) = r /\ styped (outs ++ rest) s1
     | RtError => fn args = PErr
     | _ => False
@@ -63,22 +63,16 @@ Proof. exact simple_agree. Qed.
 Print Assumptions C02_instr_keeps_types.
 
 (* the defect: MAP over an empty list keeps the source type *)
-Theorem C02_preservation_refuted : exists fuel code st st' inputs stf,
-  in_fragment code /\ typecheck code st = Some (Typed st') /\ stack_typed inputs st /\
-  py_eval fuel code (mkst [] inputs) = PDone stf /\
+Theorem C02_preservation_refuted : exists e fuel code st st' inputs stf,
+  env_okb e = true /\ in_fragment code /\ typecheck code st = Some (Typed st') /\ stack_typed inputs st /\
+  py_eval e fuel code (mkst [] inputs) = PDone stf /\
   ~ Forall2 (fun v t => rt_type v = t) (view stf) st'.
-Proof.
-  exists 10, (I_MAP (I_SEQ I_INT I_NOOP)), [TList TNat], [TList TInt], [PList TNat []], (mkst [] [PList TNat []]).
-  repeat split.
-  - constructor; [reflexivity | constructor].
-  - intros H. inversion H as [|? ? ? ? E]. discriminate E.
-Qed.
+Proof. exact c02_refuted. Qed.
 Print Assumptions C02_preservation_refuted.
 
 (* non-vacuity: a MAP that keeps the element type, on an empty and on a non-empty list *)
 Example C02_example :
-  let code := I_SEQ (I_MAP (I_SEQ (I_PUSH TNat (DInt 1)) (I_SEQ I_ADD I_NOOP))) (I_SEQ (I_DUP 1) (I_SEQ I_SIZE I_NOOP)) in
-  typecheck_nr code [TList TNat] = Some (Typed [TNat; TList TNat]) /\
-  obs_of (py_eval 20 code (mkst [] [PList TNat []])) = ODone [PNat 0; PList TNat []] /\
-  obs_of (py_eval 20 code (mkst [] [PList TNat [PNat 4; PNat 0]])) = ODone [PNat 2; PList TNat [PNat 5; PNat 1]].
-Proof. vm_compute. repeat split. Qed.
+  typecheck_nr ex_code2 [TList TNat] = Some (Typed [TNat; TList TNat]) /\
+  obs_of (py_eval ex_env 20 ex_code2 (mkst [] [PList TNat []])) = ODone [PNat 0; PList TNat []] /\
+  obs_of (py_eval ex_env 20 ex_code2 (mkst [] [PList TNat [PNat 4; PNat 0]])) = ODone [PNat 2; PList TNat [PNat 5; PNat 1]].
+Proof. exact (conj ex2_tc (conj ex2_py_empty ex2_py)). Qed.
